@@ -194,7 +194,7 @@ PROPS = {
     'C13': dict(undecided='f32 quantisation of the filter state near convergence', fn=p_C13, level='proof', explanation='For the constructor and for set_time over a partition of t in [0,inf) that carries the cutoff/sample-rate relation exactly (t=0; 0<t<1/max_fc as tau/fs; t=1/max_fc; 1/max_fc<t<1/min_fc as 1/(u*fs), u=f0/fs; t=1/min_fc; t>1/min_fc; max_fc/fs read from the design of the constructor), the coefficient terms produced by the dependency design (its own MIR) are, after clearing the common denominator, a convex combination: b0,b1,-a1 >= 0, sum 1, pole -a1 < 1, a2=b2=0; process() is the five-term recurrence on (input, previous input, previous output) and set_time touches nothing but the coefficients. Hence no overshoot/ringing for any history and contraction for constant input, over the reals.'),
     'C14': dict(undecided='f32 rounding of the coefficients inside the response lemma', fn=p_C14, level='other', explanation='set_time is ignored exactly on paths implying |t - cached_t| <= 0.05 and then writes nothing; otherwise cached_t := t together with the coefficients, whose design argument is pi*clamp(1/t, 0.1 Hz, max_fc)/fs per partition of t. The response percentages are decided as a lemma about these formulas by interval arithmetic over n = t*fs (R-RESPONSE), over the reals.'),
     'C07': dict(undecided='nothing (one reasoned exception: the zero-initialised search result, excluded by the mask invariant)', fn=p_C07, level='proof', explanation='Mask invariant allowed in [1,4095] is inductive over new/allow/forbid (Kleene iteration over the note slice, slice length partitioned 0 / >=1), forbid rescues the LAST note; the hysteresis early return is taken only on paths that imply the cached pitch class (note mod 12) is enabled now; every value find_nearest_note can return is the note of an enabled candidate (loop invariant: the recorded best is always pc*H+k*O with pc enabled, checked inductive over both back edges).'),
-    'C08': dict(undecided='optimality of the scan arithmetic over all 4095 scales x inputs, the semitone-bucket rule and the 10 uV tie tolerance', fn=p_C08, level='other', explanation='Necessary structure of the nearest-note scan only: octaves searched are exactly k-1 (if it exists), k, k+1 (if it exists) in ascending order; every returned note is either within one half step of the input or the recorded best candidate; search input is the clamped input; microvolt constants consistent. Optimality of the scan arithmetic (nearest note over all 4095 scales, tie tolerance) is NOT decided.'),
+    'C08': dict(undecided='the hand-written nearest-note lemma that combines the decided premises (DESIGN §6 C08); f32 rounding of v*10^6 beyond the stated 10 uV tolerance', fn=p_C08, level='other', explanation='Every premise of the nearest-note lemma is decided from the MIR: (P1) candidates are visited in strictly ascending voltage: octaves exactly k-1 (if it exists), k, k+1 (if it exists) ascending, pitch classes 0..12 ascending, 11*H < O; (P2, R-ARGMIN) one iteration of the scan, from an ARBITRARY accumulator state, is one step of a running arg-min over |vin - candidate| with sound early exits: a disabled pitch class changes nothing; a candidate within one half step can only be returned itself; the best so far is returned early only when the current candidate is farther; the accumulators are updated together to (candidate, |vin - candidate|) and only when that is not farther than the best so far; (P3) every returned note is the visited candidate or the recorded best, the search input is the clamped input, microvolt constants consistent (drift < 10 uV); (P4) configuring the scale does not touch the conversion cache. The lemma (ascending candidates + these step rules => nearest allowed note with the semitone-bucket exception, ties either way, same in every octave) is a written proof, not machine-checked.'),
     'C09': dict(undecided='monotonicity of the note sequence (depends on C08 optimality)', fn=p_C09, level='other', explanation='convert(): early return exactly on paths implying (pitch class enabled) and stairstep-H < v < stairstep+W+H, rewriting only the fraction; every other path re-searches with the clamped input and its result carries no symbol of the previous conversion (history-free); the freshly constructed quantizer cannot take the early return. Monotonicity of the note sequence depends on C08 optimality and is not decided.'),
     'C19': dict(undecided='the chromatic [0,1)-semitone clause and the two-ulp reproduction statement', fn=p_C19, level='other', explanation='On both return paths the record returned is the cached record, stairstep = note_num/12 is re-established whenever the note is written, fraction = v - stairstep (raw input on the hysteresis path, clamped input otherwise), early-return fraction within (-H, W+H). The chromatic [0,1)-semitone clause and the two-ulp statement are not decided.'),
     'C01': dict(undecided='bit-exact f32 statements ("exactly 1.0" is decided as P = 1 over the reals with the last table entry exactly 1.0)', fn=p_C01, level='other', explanation='calc_value per state and table-cell partition equals the documented blend start + (target-start)*sample as an exact polynomial term; its range over the invariant box (latched levels, sustain, table values in [0,1]) is [0,1] by vertex evaluation; start/end levels per phase; tables are the documented RC curves (node error + curvature bound); latches copy the output level. f32 rounding (<= 2 ulp) is not decided.'),
